@@ -24,7 +24,15 @@ func report(sig, ctor string, args interface{}, m []byte, what string) {
 }
 
 // wellFormed checks FF type VLQ(len) payload.
+var stable engine.Stable
+
 func wellFormed(ctor string, args interface{}, m []byte, typ byte, payload []byte) bool {
+	if ok, was, now := stable.Next(m); !ok {
+		if len(was) > 24 {
+			was, now = was[:24], now[:24]
+		}
+		report("aliasing:"+ctor, ctor, args, was, "the message returned by the previous constructor call changed when this one was built: now "+engine.Hex(now))
+	}
 	want := refsmf.Meta(typ, payload)
 	if !bytes.Equal(m, want) {
 		w := want
